@@ -135,11 +135,16 @@ type Case struct {
 	TrailNL bool `json:"trail_nl"` // NDJSON: final newline
 	// delivery of the request body to the parser: 0 = one io.Reader over the whole body, 1 = one byte per Read,
 	// 2 = 1..1500 bytes per Read (network-like), 3 = 1..64 bytes per Read; sizes drawn from a PRNG seeded with SegSeed
-	SegMode   int     `json:"seg_mode"`
-	SegSeed   int64   `json:"seg_seed"`
-	BodyLen   int     `json:"body_len"`
-	Reads     int     `json:"reads"`              // Read calls that returned data
-	SegHead   []int   `json:"seg_head"`           // sizes of the first 24 of them
+	SegMode int   `json:"seg_mode"`
+	SegSeed int64 `json:"seg_seed"`
+	BodyLen int   `json:"body_len"`
+	Reads   int   `json:"reads"`    // Read calls that returned data
+	SegHead []int `json:"seg_head"` // sizes of the first 24 of them
+	// Retry: the insert-service step is run the way controller.doPush runs it when the first insert fails: ProcessRequest on
+	// fresh columns (block discarded), then ProcessRequest AGAIN with the same request object on fresh columns; the rows
+	// judged are those of the second block. RetryDiff: first difference between the two blocks ("" = identical).
+	Retry     bool    `json:"retry"`
+	RetryDiff string  `json:"retry_diff,omitempty"`
 	BodyB64   string  `json:"body_b64,omitempty"` // with SPANS_DUMP_BODY=1: the exact request body and every segment size
 	SegAll    []int   `json:"seg_all,omitempty"`
 	Panic     string  `json:"panic,omitempty"` // the insert service panicked / lost rows on what the parser accepted
@@ -524,6 +529,48 @@ func toCols(svc *wsvc.InsertServiceV2Multimodal, req any) (colset, int, string) 
 	return cs, n, p
 }
 
+// every cell of a block, column by column (for comparing the blocks of two ProcessRequest calls)
+func (cs colset) diff(other colset, n int) string {
+	for name, col := range cs {
+		for i := 0; i < n; i++ {
+			var a, b string
+			switch col.(type) {
+			case *chproto.ColStr, *chproto.ColFixedStr:
+				a, b = cs.str(name, i), other.str(name, i)
+			default:
+				a, b = strconv.FormatInt(cs.i64(name, i), 10), strconv.FormatInt(other.i64(name, i), 10)
+			}
+			if a != b {
+				if len(a) > 60 {
+					a = a[:60] + "..."
+				}
+				if len(b) > 60 {
+					b = b[:60] + "..."
+				}
+				return fmt.Sprintf("column %s row %d: first block %q, retried block %q", name, i, a, b)
+			}
+		}
+	}
+	return ""
+}
+
+// toColsRetry: see Case.Retry
+func toColsRetry(svc *wsvc.InsertServiceV2Multimodal, req any, retry bool, diff *string) (colset, int, string) {
+	cs, n, p := toCols(svc, req)
+	if !retry || p != "" {
+		return cs, n, p
+	}
+	cs2, n2, p2 := toCols(svc, req)
+	if p2 == "" && *diff == "" {
+		if n2 != n {
+			*diff = fmt.Sprintf("first block %d rows, retried block %d rows", n, n2)
+		} else if pd := hx.Catch(func() { *diff = cs.diff(cs2, n) }); pd != "" {
+			*diff = "blocks not comparable: " + pd
+		}
+	}
+	return cs2, n2, p2
+}
+
 func (cs colset) str(name string, i int) string {
 	switch c := cs[name].(type) {
 	case *chproto.ColStr:
@@ -569,7 +616,7 @@ func run(c *Case, silence bool) {
 	default:
 		panic("fmt " + c.Fmt)
 	}
-	c.Err, c.ErrMsg, c.Spans, c.Tags, c.Read, c.ReadAll, c.Panic = false, "", []TRow{}, []ARow{}, []RSpan{}, 0, ""
+	c.Err, c.ErrMsg, c.Spans, c.Tags, c.Read, c.ReadAll, c.Panic, c.RetryDiff = false, "", []TRow{}, []ARow{}, []RSpan{}, 0, "", ""
 	// the parser gets its own copy of the body (what it retains must not alias our buffers) delivered in segments
 	sr := &segReader{b: append([]byte{}, body...), r: hx.Rand(c.SegSeed), mode: c.SegMode}
 	err, spans, tags := collect(parser(context.Background(), sr, nil))
@@ -587,7 +634,7 @@ func run(c *Case, silence bool) {
 	}
 	var dbrows [][]driver.Value
 	for _, s := range spans {
-		cs, n, p := toCols(samplesSvc, s)
+		cs, n, p := toColsRetry(samplesSvc, s, c.Retry, &c.RetryDiff)
 		if p != "" || n != len(s.MTraceId) {
 			c.Panic = fmt.Sprintf("traces insert service: %d rows for %d spans; %s", n, len(s.MTraceId), p)
 			continue
@@ -630,7 +677,7 @@ func run(c *Case, silence bool) {
 		}
 	}
 	for _, t := range tags {
-		cs, n, p := toCols(tagsSvc, t)
+		cs, n, p := toColsRetry(tagsSvc, t, c.Retry, &c.RetryDiff)
 		if p != "" || n != len(t.MKey) {
 			c.Panic = fmt.Sprintf("tags insert service: %d rows for %d tags; %s", n, len(t.MKey), p)
 			continue
@@ -1156,6 +1203,7 @@ func genFat(r *rand.Rand, c *Case, fmtName string, n int, blobLen int, segMode i
 func gen(r *rand.Rand, id int, depth int) Case {
 	c := Case{ID: id, Otlp: []ORes{}, Zip: []JV{}}
 	c.SegSeed = r.Int63()
+	c.Retry = r.Intn(5) < 2
 	switch k := r.Intn(100); {
 	case k < 35:
 		c.SegMode = 0
